@@ -25,6 +25,9 @@ type NextIterator struct {
 }
 
 func (n *NextIterator) Rand(length int) int {
+	// rand.Rand is not safe for concurrent use, iterator is shared by all instances
+	n.mx.Lock()
+	defer n.mx.Unlock()
 	return n.rnd.Intn(length)
 }
 
